@@ -194,6 +194,12 @@ func c06Partition(b []byte, vpn bool, proto byte) {
 		verifAssume(isIP && pr == proto && !ihl5)
 	case 4:
 		verifAssume(isIP && pr == 4)
+		if verifParam("INNER", 0) == 1 && len(b) >= off+40 {
+			// nested obligations: the inner packet is itself an unfragmented IPv4 header (IHL 5) of the scanned protocol
+			verifAssume(ihl5 && b[off+20] == 0x45 && b[off+29] == proto && b[off+26]&0x3f == 0 && b[off+27] == 0)
+			in := len(b) - off - 20
+			verifAssume(b[off+22] == byte(in>>8) && b[off+23] == byte(in))
+		}
 	case 5:
 		verifAssume(isIP && pr != 4 && pr != proto)
 	}
